@@ -20,7 +20,9 @@ STD = [("くるま", "車", "一般名詞"), ("くる", "来", "カ行変"), ("
        ("しんか", "進化", "サ変名詞"), ("やま", "山", "一般名詞"), ("やまだ", "山田", "固有名詞"), ("たか", "高", "形容詞"),
        ("ほん", "本", "一般名詞"), ("き", "木", "一般名詞"), ("こーひー", "珈琲", "一般名詞"), ("さけ", "酒", "一般名詞"), ("さけ", "鮭", "一般名詞")]
 ANC = [("まで", "まで", "副助詞"), ("で", "で", "格助詞"), ("は", "は", "副助詞"), ("しん", "新", "接頭辞"), ("か", "化", "接尾辞"),
-       ("お", "御", "接頭辞"), ("ほん", "本", "助数詞"), ("ない", "ない", "助動詞"), ("てき", "的", "接尾辞")]
+       ("お", "御", "接頭辞"), ("ほん", "本", "助数詞"), ("ない", "ない", "助動詞"), ("てき", "的", "接尾辞"),
+       # independent words that live ONLY in the ancillary dictionary (counters): what is learned about them must survive too
+       ("じ", "時", "助数詞"), ("じ", "次", "助数詞"), ("こ", "個", "助数詞")]
 TANKAN = [("き", "木", "一般名詞"), ("き", "気", "一般名詞"), ("やま", "山", "一般名詞")]
 
 
